@@ -8,6 +8,7 @@ import (
 
 	"github.com/metrico/qryn/reader/logql/logql_transpiler_v2/shared"
 	sql "github.com/metrico/qryn/reader/utils/sql_select"
+	"github.com/metrico/qryn/zzverif/vlib"
 	"github.com/metrico/qryn/zzverif/vrt"
 )
 
@@ -113,5 +114,23 @@ func VH_C07_linefilter_complement() {
 	}
 	vrt.Assert(pv == hit, "positive-filter-keeps-exactly-the-matching-lines")
 	vrt.Assert(nv == !pv, "negative-filter-is-the-complement-of-the-positive-one")
+	// the one primitive whose meaning IS decided in Go: a LIKE pattern is text qryn builds. For |= the
+	// pattern literal must mean "contains the filter text" (ClickHouse string-literal and LIKE escape rules).
+	if pos == "|=" {
+		txt, err := vsCond(pos, val).String(sql.DefaultCtx())
+		vrt.Assert(err == nil, "condition-renders")
+		toks, ok := vlib.SQLLex(txt)
+		vrt.Assert(ok, "condition-lexes")
+		found := false
+		for _, t := range toks {
+			if t.Kind == 'S' {
+				lit, isContains := vlib.LikeContainsLiteral(t.Text)
+				vrt.Assert(isContains, "like-pattern-is-an-escaped-contains-pattern")
+				vrt.Assert(lit == val, "like-pattern-means-contains-the-filter-text")
+				found = true
+			}
+		}
+		vrt.Assert(found, "like-pattern-literal-present")
+	}
 	vrt.Reach("end")
 }
